@@ -156,3 +156,41 @@ Fixpoint side (e : Parser.expr) : bool :=
     end
   end
 with side_v (v : value) : bool := match v with VExp e => side e | _ => true end.
+
+(* ---- premises of the text-level theorems (Proofs/SqlLex.v, Proofs/SqlText.v) ---- *)
+Definition fname (l : value) : string := match field_of l with Some f => f | None => "" end.
+
+(* field names PostgreSQL reads back unchanged: non-empty, no double quote, at most 63 bytes *)
+Definition name_ok (f : string) : bool :=
+  match str f with [] => false | _ => true end && forallb (fun c => negb (Ascii.eqb c """"%char)) (str f) && (List.length (str f) <=? 63)%nat.
+Fixpoint names_ok (e : Parser.expr) : bool :=
+  match e with
+  | E l op rt _ _ =>
+    match op with
+    | And | Or => names_ok_v l && names_ok_v rt
+    | Not | MustNot | Must => names_ok_v l
+    | _ => name_ok (fname l)
+    end
+  end
+with names_ok_v (v : value) : bool := match v with VExp e => names_ok e | _ => true end.
+
+Definition sqs (v : string) : string := "'" ++ replace_char "'"%char "''" v ++ "'".
+Definition dqs (f : string) : string := """" ++ f ++ """".
+Definition int64 (z : Z) : bool := ((-9223372036854775808 <=? z)%Z && (z <=? 9223372036854775807)%Z).
+(* ---- premises on the text ---- *)
+Definition like_plain (p : string) : bool :=
+  let r := sqs p in let n := String.length r in negb ((4 <=? n)%nat && char_at_is r 1 "/"%char && char_at_is r (n - 2) "/"%char).
+Definition bound_int64 (v : value) : bool := match int_bound v with Some z => int64 z | None => true end.
+Fixpoint text_ok (e : Parser.expr) : bool :=
+  match e with
+  | E l op rt _ _ =>
+    match op with
+    | And | Or => text_ok_v l && text_ok_v rt
+    | Not | MustNot | Must => text_ok_v l
+    | Like => match rt with VExp (E (VStr p) _ _ _ _) => like_plain p | _ => true end
+    | Range => match rt with VBound lo hi _ => bound_int64 lo && bound_int64 hi | _ => true end
+    | _ => true
+    end
+  end
+with text_ok_v (v : value) : bool := match v with VExp e => text_ok e | _ => true end.
+
